@@ -32,7 +32,8 @@ FUNCS = {
              'increment_affinity', 'decrement_affinity'],
     'Bucket': ['set_affinity_strategy', 'get_affinity_strategy', 'adjust_capacity_up', 'adjust_capacity_down',
                'add_node', 'remove_node', 'put'],
-    'Server': ['put', 'restore', 'renew', 'check_app_lifetime', 'remove', 'remove_all', 'size', 'set_state'],
+    'Server': ['put', 'restore', 'renew', 'check_app_lifetime', 'remove', 'remove_all', 'size', 'set_state', 'is_same',
+               '__init__'],
     'SpreadStrategy': ['suggested_node', 'next_node'],
     'PlacementFeasibilityTracker': ['feasible', 'adjust'],
     'Cell': ['add_app', 'remove_app', 'configure_identity_group', 'remove_identity_group',
@@ -56,7 +57,7 @@ TOPO = ['Node.add_node', 'Node.remove_node', 'Bucket.add_node', 'Bucket.remove_n
         'TraitSet.has', 'Bucket.adjust_capacity_up', 'Bucket.adjust_capacity_down', 'Node.increment_affinity',
         'Node.decrement_affinity', 'Server.set_state', 'Node.set_state', 'Node.get_state', 'Server.remove_all']
 PROP_FUNCS = {
-    'C01': SRV + TOPO + ['Cell.add_app', 'Cell.remove_app'] + LOOP,
+    'C01': SRV + TOPO + ['Cell.add_app', 'Cell.remove_app', 'Server.is_same', 'Server.__init__'] + LOOP,
     'C02': SRV + TOPO + ['Bucket.put', 'Node.size', 'Server.size', 'PlacementFeasibilityTracker.feasible',
                          'PlacementFeasibilityTracker.adjust', 'Application.shape', 'SpreadStrategy.suggested_node',
                          'SpreadStrategy.next_node', 'Bucket.get_affinity_strategy'] + LOOP,
